@@ -29,7 +29,14 @@ PROPS["C17"] = dict(
          "segment, Grow, fill up); thorough tier also reaches the full state of 2^24+ blocks call by call (sparse 4096 x 513 segments, in memory "
          "1 x 2^21+1); above 2^22 blocks the model is two bit sets, block geometry and the FreeBlock side of the reopen probe are sampled "
          "(touched, recent and landmark indexes), the ArrangeBlock side stays exact; constructor cases = (block size valid or invalid, buffer size, fit); "
-         "concurrent cases = (geometry, 2-8 goroutines, rounds, blocks held per goroutine); non-trivial = a freed index was handed out again "
+         "concurrent cases = (geometry, 2-8 goroutines, rounds, blocks held per goroutine, and in half of the cases: Pre/PreFree = the allocator under test is a REOPEN of bytes with a history "
+         "- a first allocator makes up to Count ArrangeBlock calls on 2-4 segments and frees all but at most G*hold evenly spread blocks (minus every 2nd/3rd/5th of those), these are the goroutines' initial holdings, "
+         "so the concurrent phase of a freshly reopened allocator starts with FreeBlock as well as ArrangeBlock calls; Late = nobody, neither the workers nor the harness' bookkeeping, calls Available() on the allocator under "
+         "test until the workers have completed a drawn number (0..59) of calls, then an observer goroutine makes the FIRST Available() call of the allocator's life while the workers go on, and the workers' own bound checks on "
+         "Available() begin when it has returned; ParkSeg/ParkOps = the same with the interleaving forced through the storage: the Buffer is a wrapper around the in-memory one, the workers are held between two rounds, and if "
+         "the first Available() call reads the header of a segment >= ParkSeg from the Buffer that read is parked until the workers, let go at that moment, have completed 1..16 more calls - an Available() that does not touch the "
+         "storage is not parked). Oracle as before and schedule independent: owner table, stamps, Available() within [Count-G*hold, Count] whenever observed (including the first call), and at quiescence Available() == "
+         "Count - blocks held, and an allocator opened on a copy of the bytes agrees (Available, allocated set by probing); non-trivial = a freed index was handed out again "
          "while another segment holds allocated blocks, or a continuing reopen with >= 1 allocated block, or ArrangeBlock hit the full "
          "allocator, or the constructor had to reject the geometry, or ArrangeBlock succeeded after a Grow on the same allocator, or a reopen "
          "on more bytes with >= 1 allocated block, or the last free block of more than 2^24 was handed out, or a concurrent case; distinct = FNV hash of the case. Excluded: "
@@ -44,7 +51,9 @@ PROPS["C17"] = dict(
                  "preset headers: the header bytes of a full segment are taken from a one-segment allocator of the same block size that handed out all its blocks, and copied into the headers of other segments; this relies on the documented layout (each segment starts with its own header describing its bs*8 blocks) being position independent; the thorough tier reaches the same state call by call, and small geometries run every probe on preset states",
                  "prefix probe: an allocator on the leading k whole segments of the bytes sees exactly the state of these segments (documented layout: the header is the first block of each segment)",
                  "Grow: Buffer.Grow is documented without restriction, Blocks.Bytes() hands the buffer out and NewBlocks documents that the buffer may be larger than needed (fit=false), so growing the buffer of a live allocator is taken as supported; asserted afterwards is only what the statement says (results against the model, state recoverable from the bytes); the statement's first sentence does not name Grow (borderline)",
-                 "the concurrent oracle is schedule independent (owner table, bounds on Available, quiescent state); a report of the race detector is attributed to the case through a subtest"],
+                 "the concurrent oracle is schedule independent (owner table, bounds on Available, quiescent state); a report of the race detector is attributed to the case through a subtest",
+                 "Available() is documented without precondition ('returns number of free blocks'), so its first call may come at any time, also while other goroutines allocate and free; a Buffer may be slow at any call and its "
+                 "documentation allows concurrent requests for non-overlapping ranges, so a wrapper that delays one header read is a legitimate storage (the harness already passes its own Buffer implementations: sparse, mmap)"],
     units=[
         dict(name="exhaustive", run="^TestC17Exhaustive$", shards=(8, 11), timeout=(200, 1500)),
         dict(name="rapid", run="^TestC17Rapid$", checks=(2000, 8000), shards=(5, 16), timeout=(200, 1500)),
@@ -66,5 +75,5 @@ LEVEL_TEXT["C17"] = (
     "operation a second allocator is opened on a copy of the bytes and its allocated set, recovered by probing, is compared with "
     "the model; block byte ranges are located by pointer arithmetic and checked against each other and the headers; the constructor "
     "is tried on a grid of valid and invalid geometries; 2-8 goroutines allocate and free under the race detector with an owner "
-    "table. No counterexample among the cases counted in the evidence; not a proof for longer sequences, other schedules or larger geometries."
+    "table, also on freshly reopened multi-segment allocators whose first Available() call is made while they run (free running, and with a header read parked by the storage). No counterexample among the cases counted in the evidence; not a proof for longer sequences, other schedules or larger geometries."
 )
